@@ -38,6 +38,10 @@ def install_recorders():
                 TRACE.append(Ev(self, name, a, k))
                 if cls is rich.console.Console:
                     return None
+                try:
+                    return orig(self, *a, **k)
+                except Exception:
+                    return None     # object built without its Rich initialiser (replay of a method in isolation)
             return orig(self, *a, **k)
 
         setattr(cls, name, rec)
@@ -154,6 +158,18 @@ def strcat(*parts):
     return "".join(parts)
 
 
+def dict_values(d):
+    return list(d.values())
+
+
+def dict_keys(d):
+    return list(d.keys())
+
+
+def dict_get(d, k):
+    return d.get(k)
+
+
 def has_key(d, k):
     return k in d
 
@@ -230,6 +246,7 @@ class OldEnv:
 
 
 CALLS = []   # (qualname, result) of wrapped callees
+CALL_ARGS = []  # (qualname, args, kwargs, caller locals)
 
 
 def wrap_calls(names):
@@ -244,16 +261,20 @@ def wrap_calls(names):
             orig = getattr(cls, mn)
 
             def w(*a, _o=orig, _q=qn, **k):
+                loc = dict(sys._getframe(1).f_locals)
                 r = _o(*a, **k)
                 CALLS.append((_q, r))
+                CALL_ARGS.append((_q, a, k, loc))
                 return r
             setattr(cls, mn, w)
         else:
             orig = getattr(m, qn)
 
             def w(*a, _o=orig, _q=qn, **k):
+                loc = dict(sys._getframe(1).f_locals)
                 r = _o(*a, **k)
                 CALLS.append((_q, r))
+                CALL_ARGS.append((_q, a, k, loc))
                 return r
             for name, mm in list(sys.modules.items()):
                 if name.startswith("codelimit") and mm is not None and getattr(mm, qn, None) is orig:
@@ -305,7 +326,7 @@ def base_env():
     env.update({k: v for k, v in vars(m).items() if not k.startswith("__")})
     g = globals()
     for k in ("forall", "exists", "implies", "iff", "ite", "is_none", "count_if", "sum_if", "same_list", "list_eq", "fmt",
-              "strcat", "has_key", "typename", "trace_len", "trace_method", "trace_arg", "trace_kw", "trace_target",
+              "strcat", "has_key", "typename", "dict_values", "dict_keys", "dict_get", "trace_len", "trace_method", "trace_arg", "trace_kw", "trace_target",
               "iter_trace_len", "iter_trace_method", "iter_trace_arg", "iter_trace_kw", "called", "call_count", "call_result",
               "out_len", "out_method", "out_arg", "out_kw"):
         env[k] = g[k]
